@@ -11,7 +11,7 @@
 (* default parameters come from the frozen HashParams.                             *)
 (* Stream events carry sc (scenario); a "New" event starts a fresh object.         *)
 (* The machine state is the abstract chaining value of HashStream.                 *)
-EXTENDS TraceKernel, HashStream, FieldParams, HashParams
+EXTENDS TraceKernel, HashStream, FieldParams, HashParams, HashOps
 
 VARIABLE st          \* [cv |-> chaining value, undef |-> state unspecified (see SetState)]
 
@@ -77,6 +77,18 @@ JWrite(e) ==
                      \cup Rsn(ok /\ ~Has(e, "err") /\ e.n \notin {Len(e.p), Len(WChunks(e)) * BS(H)}, "count")
                      \cup Rsn(~ok /\ Has(e, "err") /\ ~(e.n >= 0 /\ e.n % BS(H) = 0 /\ e.n \div BS(H) <= nv), "count"))
 NWrite(e) == IF st.undef THEN st ELSE [st EXCEPT !.cv = AbsorbK(H, st.cv, WChunks(e), WKept(e))]
+
+\* MiMC WriteString(s): "writes a string that doesn't necessarily consist of field elements" - one block, the element
+\* hash_to_field(s, DST "string:") of RFC 9380 (expand_message_xmd over SHA-256)
+LOCAL H2 == INSTANCE H2C
+StringDST == <<115, 116, 114, 105, 110, 103, 58>>
+StringElem(e) == H2!HashToField(q, F.bits, e.p, StringDST, 1)[1]
+JWriteString(e) ==
+  IF Panicked(e) THEN {"panic"}
+  ELSE Rsn(e.pafter # e.p, "mutated") \cup Rsn(Has(e, "err"), "spurious-error")
+NWriteString(e) ==
+  IF st.undef \/ Panicked(e) \/ Has(e, "err") \/ H.kind # "mimc" THEN st
+  ELSE [st EXCEPT !.cv = <<MiMCStep(H.q, H.d, H.cs, st.cv[1], StringElem(e))>>]
 
 \* Sum(b) = b \o digest, the object does not move
 JSum(e) ==
@@ -172,6 +184,7 @@ Judge(e) ==
                                  ELSE Rsn(e.cs # MiMCcs, "constants") \cup Rsn(e.cs2 # e.cs, "shared-constants")
     [] e.op = "New"      -> Rsn(Panicked(e), "panic")
     [] e.op = "Write"    -> JWrite(e)
+    [] e.op = "WriteString" -> JWriteString(e)
     [] e.op = "Sum"      -> JSum(e)
     [] e.op = "State"    -> JState(e)
     [] e.op = "SetState" -> JSetState(e)
@@ -193,6 +206,7 @@ NextSt(e) ==
   CASE e.op = "New"      -> [cv |-> IV(H), undef |-> FALSE]
     [] e.op = "Reset"    -> [cv |-> IV(H), undef |-> FALSE]
     [] e.op = "Write"    -> NWrite(e)
+    [] e.op = "WriteString" -> NWriteString(e)
     [] e.op = "SetState" -> NSetState(e)
     [] OTHER -> st
 
